@@ -431,6 +431,31 @@ func backSlice(v ssa.Value, o sliceOpts) map[ssa.Value]bool {
 		case *ssa.Lookup:
 			walk(x.X)
 			walk(x.Index)
+		case *ssa.Alloc:
+			// a local variable: follow every value stored into it (or into a part of it)
+			if o.ThroughLoads {
+				var stores func(addr ssa.Value, depth int)
+				stores = func(addr ssa.Value, depth int) {
+					if addr.Referrers() == nil || depth > 3 {
+						return
+					}
+					for _, r := range *addr.Referrers() {
+						switch y := r.(type) {
+						case *ssa.Store:
+							if y.Addr == addr {
+								walk(y.Val)
+							}
+						case *ssa.FieldAddr:
+							stores(y, depth+1)
+						case *ssa.IndexAddr:
+							if y.X == addr {
+								stores(y, depth+1)
+							}
+						}
+					}
+				}
+				stores(x, 0)
+			}
 		}
 	}
 	walk(v)
